@@ -991,14 +991,17 @@ void lp_upolynomial_evaluate_at_integer(const lp_upolynomial_t* p, const lp_inte
   lp_integer_t power;
   integer_construct_from_int(lp_Z, &power, 0);
 
-  // Compute
-  integer_assign_int(lp_Z, value, 0);
+  // Compute (in a temporary, value may be x)
+  lp_integer_t result;
+  integer_construct_from_int(lp_Z, &result, 0);
   size_t i;
   for (i = 0; i < p->size; ++ i) {
     integer_pow(K, &power, x, p->monomials[i].degree);
-    integer_add_mul(K, value, &p->monomials[i].coefficient, &power);
+    integer_add_mul(K, &result, &p->monomials[i].coefficient, &power);
   }
+  integer_swap(value, &result);
 
+  integer_destruct(&result);
   integer_destruct(&power);
 }
 
